@@ -43,6 +43,10 @@ struct Shared {
     pending_poke: Cell<bool>,
     pending_kill: Cell<bool>,
     poked_this_round: Cell<bool>,
+    hook_armed: Cell<Option<(usize, i64)>>,
+    in_stabilise: Cell<bool>,
+    hook_wrote: Cell<Option<(usize, i64)>>,
+    hook_writes: Cell<u64>,
     /// the dynamic sum is needed by an observer in the stabilise that is running
     sum_needed_now: Cell<bool>,
     sum_ever_ran: Cell<bool>,
@@ -129,7 +133,7 @@ pub fn gen_plan(seed: u64) -> Plan {
     let fault_free = r.chance(1, 6);
     let mut acts = vec![XAct::Observe { out: r.below(6) }, XAct::Stabilise];
     while acts.len() < n_actions {
-        let a = match r.weighted(&[10, 5, 6, 12, 8, 5, 14, if fault_free { 0 } else { 3 }, if fault_free { 0 } else { 1 }]) {
+        let a = match r.weighted(&[10, 5, 6, 12, 8, 5, 14, if fault_free { 0 } else { 3 }, if fault_free { 0 } else { 1 }, if fault_free { 0 } else { 2 }]) {
             0 => XAct::SetSel { k: r.below(16) },
             1 => XAct::SetOuter { j: r.below(16) },
             2 => XAct::SetBsel { x: r.range(-3, 8) },
@@ -138,7 +142,8 @@ pub fn gen_plan(seed: u64) -> Plan {
             5 => XAct::DropObs { obs: r.below(16) },
             6 => XAct::Stabilise,
             7 => XAct::Poke,
-            _ => XAct::Invalidate,
+            8 => XAct::Invalidate,
+            _ => XAct::HookArm { i: r.below(3), v: r.range(-3, 8) },
         };
         // biased combination: invalidate the bind-built child and re-select in the same round
         if matches!(a, XAct::SetBsel { .. }) && r.chance(1, 2) {
@@ -224,6 +229,10 @@ pub fn run_on_this_thread(plan: &Plan, keep_trace: bool) -> RunOutput {
         pending_poke: Cell::new(false),
         pending_kill: Cell::new(false),
         poked_this_round: Cell::new(false),
+        hook_armed: Cell::new(None),
+        in_stabilise: Cell::new(false),
+        hook_wrote: Cell::new(None),
+        hook_writes: Cell::new(0),
         sum_needed_now: Cell::new(false),
         sum_ever_ran: Cell::new(false),
         stale_owed: Cell::new(false),
@@ -298,7 +307,19 @@ pub fn run_on_this_thread(plan: &Plan, keep_trace: bool) -> RunOutput {
             },
             {
                 let sh = sh.clone();
-                move |b| sh.ev(format!("sum observability {}", b))
+                let hook_vars: Vec<Var<i64>> = vars.clone();
+                move |b| {
+                    sh.ev(format!("sum observability {}", b));
+                    // a callback made from inside stabilise: a write it makes is deferred
+                    if sh.in_stabilise.get() {
+                        if let Some((i, v)) = sh.hook_armed.take() {
+                            sh.ev(format!("observability callback writes child {} := {}", i, v));
+                            hook_vars[i].set(v);
+                            sh.hook_wrote.set(Some((i, v)));
+                            sh.hook_writes.set(sh.hook_writes.get() + 1);
+                        }
+                    }
+                }
             },
         );
         let sum_weak: WeakNode<i64> = sum.weak();
@@ -445,6 +466,7 @@ pub fn run_on_this_thread(plan: &Plan, keep_trace: bool) -> RunOutput {
                     refm.vars[*i % 3] = norm(*v);
                     vars[*i % 3].set(norm(*v));
                 }
+                XAct::HookArm { i, v } => sh.hook_armed.set(Some((*i % 3, norm(*v)))),
                 XAct::Poke => {
                     sh.pending_poke.set(true);
                     poke.update(|x| x + 1);
@@ -471,7 +493,9 @@ pub fn run_on_this_thread(plan: &Plan, keep_trace: bool) -> RunOutput {
                     let poke_pending = sh.pending_poke.get();
                     let owed = sh.stale_owed.get();
                     sh.sum_needed_now.set(sum_needed);
+                    sh.in_stabilise.set(true);
                     state.stabilise();
+                    sh.in_stabilise.set(false);
                     rounds += 1;
                     stabilised = true;
                     for o in observers.iter_mut().flatten() {
@@ -520,6 +544,10 @@ pub fn run_on_this_thread(plan: &Plan, keep_trace: bool) -> RunOutput {
                     }
                 }
             }
+            // a write made by the observability callback took effect at the end of the stabilise
+            if let Some((i, v)) = sh.hook_wrote.take() {
+                refm.vars[i] = v;
+            }
             let lines = crate::run::full_audit(&state, stabilised);
             audits += 1;
             if !lines.is_empty() {
@@ -556,6 +584,7 @@ pub fn run_on_this_thread(plan: &Plan, keep_trace: bool) -> RunOutput {
     out.faults.insert("expert_remove_one_of_duplicate_dependencies".into(), sh.removed_duplicate.get());
     out.faults.insert("expert_add_dependency".into(), sh.added_on_computed_child.get());
     out.faults.insert("expert_invalidate".into(), sh.killed.get() as u64);
+    out.faults.insert("expert_write_from_observability_callback".into(), sh.hook_writes.get());
     out.probes = incremental::verif::take_probes().into_iter().map(|(k, v)| (k.to_string(), v)).collect();
     let mut h = Fnv::new();
     let mut shape = Fnv::new();
